@@ -40,6 +40,7 @@ CLASSES = {
 
 def job(cfg):
     cls, Fn, image, direction, uncond = cfg["cls"], cfg["F"], cfg["image"], cfg["direction"], cfg.get("uncond", False)
+    reuse = cfg.get("mask_reused", False)
     timeout = cfg["timeout"]
     R = sc.new_registry()
     solver = smt.Z3Proc()
@@ -55,10 +56,15 @@ def job(cfg):
         with stubs.torch_patches():
             m = CLASSES[cls](mask, net_factory, **kw)
             m.eval()
+            orig = [mask.a[i].t for i in range(Fn)]
+            if reuse:
+                # the caller keeps using its own mask tensor after construction (SimpleRealNVP flips one shared mask
+                # in place between layers): the layer must keep the pattern it was constructed with
+                mask *= -1
             if uncond:
                 m.unconditional_transform.initialized.data = torch.tensor(True)
                 TK.symbolize(m.unconditional_transform, prefix="u_")
-            pattern = [bool(S(tm.le0(mask.a[i].t))) for i in range(Fn)]  # True = identity (decisions are memoised)
+            pattern = [bool(S(tm.le0(orig[i]))) for i in range(Fn)]  # True = identity (decisions are memoised)
             x = stubs.named_tensor("x", (1,) + in_shape, seed_base=0)
             ctx = stubs.named_tensor("ctx", (1, 2)) if not image else None
             out, lad = (m(x, ctx) if direction == "forward" else m.inverse(x, ctx))
@@ -71,12 +77,12 @@ def job(cfg):
 
     ex = explore.Explorer(R, solver, max_paths=2000, decide_timeout=10.0)
     results = ex.explore(fn)
-    name = "%sCoupling/F=%d/%s/%s%s" % (cls, Fn, "image" if image else "2d", direction, "/uncond" if uncond else "")
+    name = "%sCoupling/F=%d/%s/%s%s%s" % (cls, Fn, "image" if image else "2d", direction, "/uncond" if uncond else "", "/mask-flipped-by-caller-after-construction" if reuse else "")
     jr = C01.new_jr("%sCouplingTransform" % cls)
     jr["paths"] = len(results)
     jr["prune_queries"] = ex.stats["prune_queries"]
     patterns_seen = set()
-    sig = {"cls": cls, "image": image, "direction": direction, "uncond": uncond}
+    sig = {"cls": cls, "image": image, "direction": direction, "uncond": uncond, "mask_reused": reuse}
     per = int(np.prod(in_shape[1:])) if image else 1
 
     def fail(relation, pattern, detail, path=None):
@@ -86,9 +92,9 @@ def job(cfg):
             if st == "sat" and model:
                 mv = {k.args[0]: float(v) for k, v in model.items() if k.op == "var" and k.args[0].startswith("mask_")}
                 mask_values = [mv.get("mask_%d" % i, -1.0 if pattern[i] else 1.0) for i in range(Fn)]
-        rep = replay(cls, Fn, image, direction, uncond, pattern, relation, mask_values=mask_values)
+        rep = replay(cls, Fn, image, direction, uncond, pattern, relation, mask_values=mask_values, mask_reused=reuse)
         payload = {"property": PROP, "kernel": jr["kernel"], "relation": relation, "signature": sig, "pattern": pattern, "detail": detail, "replay_result": rep,
-                   "replay_call": {"fn": "harness.C07:replay", "args": {"cls": cls, "Fn": Fn, "image": image, "direction": direction, "uncond": uncond, "pattern": pattern, "relation": relation, "mask_values": mask_values}}}
+                   "replay_call": {"fn": "harness.C07:replay", "args": {"cls": cls, "Fn": Fn, "image": image, "direction": direction, "uncond": uncond, "pattern": pattern, "relation": relation, "mask_values": mask_values, "mask_reused": reuse}}}
         if rep.get("reproduced"):
             fn_ = "".join(ch if ch.isalnum() else "_" for ch in "%s_%s" % (name, relation))[:110]
             jr["violations"].append({"kernel": jr["kernel"], "relation": relation, "signature": sig, "replay": C.write_replay(PROP, fn_, payload), "detail": rep})
@@ -192,7 +198,7 @@ def job(cfg):
     return jr
 
 
-def replay(cls, Fn, image, direction, uncond, pattern, relation, mask_values=None):
+def replay(cls, Fn, image, direction, uncond, pattern, relation, mask_values=None, mask_reused=False):
     """real tensors, a small real conditioner: identity features bit-for-bit, Jacobian sparsity by autograd."""
     res = {"reproduced": False}
     try:
@@ -220,7 +226,11 @@ def replay(cls, Fn, image, direction, uncond, pattern, relation, mask_values=Non
         kw = {}
         if uncond:
             kw["unconditional_transform"] = lambda features: NM.ActNorm(features)
+        if mask_reused:
+            mask = torch.tensor(mask, dtype=torch.float64)  # .double() below then keeps the very same tensor
         m = CLASSES[cls](mask, lambda i, o: Net(i, o), **kw).double().eval()
+        if mask_reused:
+            mask *= -1  # the caller's own tensor, flipped in place after the layer was built
         shape = (2, Fn, 1, 2) if image else (2, Fn)
         x = torch.rand(shape, dtype=torch.float64) * 2 - 1
         ctx = None if image else torch.randn(2, 2, dtype=torch.float64)
@@ -264,6 +274,8 @@ def configs(tier):
                     cfgs.append({"cls": cls, "F": Fn, "image": image, "direction": direction, "timeout": t})
     for direction in ("forward", "inverse"):
         cfgs.append({"cls": "Affine", "F": 3, "image": False, "direction": direction, "uncond": True, "timeout": t})
+        for cls in (("Affine", "Additive") if tier == "quick" else tuple(CLASSES)):
+            cfgs.append({"cls": cls, "F": 2 if cls.startswith("Piecewise") else 3, "image": False, "direction": direction, "mask_reused": True, "timeout": t})
     return cfgs
 
 
